@@ -303,16 +303,25 @@ def adjust_offsets_w_sustain(
     pitches = np.array([n["midi_pitch"] for n in notes])
     note_ons = np.array([n["note_on"] for n in notes])
 
+    note_offs = np.array([n["note_off"] for n in notes], dtype=float)
+
     for pitch in np.unique(pitches):
         pitch_indices = np.where(pitches == pitch)[0]
 
         sorted_indices = pitch_indices[np.argsort(note_ons[pitch_indices])]
         sorted_note_ons = note_ons[sorted_indices]
-        sorted_sound_offs = offs[sorted_indices]
 
-        adjusted_sound_offs = np.minimum(sorted_sound_offs[:-1], sorted_note_ons[1:])
-
-        offs[sorted_indices[:-1]] = adjusted_sound_offs
+        # a sustained note ends when the same pitch is struck again, i.e. at
+        # the first onset of another note of that pitch at or after its
+        # release (an onset while the key is still down does not end it, and
+        # a note never ends before its release)
+        for rank, idx in enumerate(sorted_indices):
+            k = np.searchsorted(sorted_note_ons, note_offs[idx], side="left")
+            if k == rank:
+                # zero-length note: skip the note itself
+                k += 1
+            if k < len(sorted_note_ons):
+                offs[idx] = max(note_offs[idx], min(offs[idx], sorted_note_ons[k]))
 
     for offset, note in zip(offs, notes):
         note["sound_off"] = offset
